@@ -24,8 +24,13 @@ struct vin_s nondet_vin(void);
 #define V_INIT() do { VINS = nondet_vin(); vin_pos = 0; } while (0)
 #define V_ASSUME(c) __CPROVER_assume(c)
 #define V_ASSERT(c, tag) __CPROVER_assert((c), "VP:" tag)
+#ifdef VERIF_NO_WITNESS   /* trace run for a failed unwinding assertion: the witnesses (which fail by construction) are compiled out */
+#define V_REACH(tag) do { } while (0)
+#define V_END() do { } while (0)
+#else
 #define V_REACH(tag) __CPROVER_assert(0, "WITNESS:" tag)
 #define V_END() __CPROVER_assert(0, "WITNESS:end")
+#endif
 #define V_HARNESS(name) void name(void)
 #define V_NATIVE 0
 #else
